@@ -488,7 +488,7 @@ def case_dict(case, res):
 def gen_cases(tier, seed):
     q = tier == "quick"
     cases = []
-    for i in range(16 if q else 240):
+    for i in range(16 if q else 400):
         rng = rng_for(seed, "c09-gen", i)
         cfg = {"beta": str(rng.choice(["iwls", "rw", "nuts", "hmc"], p=[0.35, 0.3, 0.15, 0.2])),
                "sigma2": str(rng.choice(["rw", "mh", "nuts"], p=[0.45, 0.4, 0.15])),
@@ -499,14 +499,14 @@ def gen_cases(tier, seed):
         heavy = (cfg["beta"] in ("nuts", "hmc")) + (cfg["sigma2"] == "nuts")
         cases.append({"kind": "liesel", "idx": i, "seed": seed, "cfg": cfg, "spec": spec, "engine_seed": int(rng.integers(2 ** 30)),
                       "collide": bool(i % 4 == 3), "reused_kernels": bool(i % 3 == 1), "cost": 10 + 10 * heavy})
-    for i in range(6 if q else 60):
+    for i in range(6 if q else 160):
         rng = rng_for(seed, "c09-gene", i)
         cfg = {"beta": str(rng.choice(["iwls", "rw"])), "sigma2": str(rng.choice(["rw", "mh"])),
                "b2": str(rng.choice(["iwls", "rw", "gibbs_user"])), "step_beta": float(rng.choice([0.8, 1.5])),
                "step_s": float(rng.choice([0.8, 2.0])), "step_b2": float(rng.choice([1.0, 2.0]))}
         cases.append({"kind": "eager", "idx": 20000 + i, "seed": seed, "cfg": cfg, "n_iter": 3, "engine_seed": int(rng.integers(2 ** 30)),
                       "cost": 12})
-    for i in range(6 if q else 60):
+    for i in range(6 if q else 160):
         rng = rng_for(seed, "c09-gend", i)
         cases.append({"kind": "dict", "idx": 10000 + i, "seed": seed, "spec": [[1, 5, 1], [3, 5, 1], [4, 10, 1]],
                       "engine_seed": int(rng.integers(2 ** 30)), "direct_sequence": bool(i % 2), "cost": 6})
